@@ -527,6 +527,27 @@ pub fn analyse(rep: &RunReport) -> Verdict {
         }
     }
 
+    // C11 at every quiescence: once the harness has released all its owners and nobody is inside a call, nothing but
+    // the pipe itself can be holding a strong reference; pipe_in must not
+    for (pi, snap) in facts.q1.iter().chain(facts.q2.iter()).enumerate() {
+        let pi = pi % facts.q1.len().max(1);
+        for (s, st) in world.streams.iter().enumerate() {
+            let Some(pid) = st.pipe_op else { continue };
+            if ops[pid as usize].kind != Kind::PipeIn || ops[pid as usize].phase != pi {
+                continue;
+            }
+            let o = st.obj.unwrap_or(0);
+            let strong_by_design = ops.iter().any(|r| (r.kind == Kind::FutureSync || r.kind == Kind::Pipe) && r.obj == Some(o));
+            let in_call = ops.iter().any(|r| r.obj == Some(o) && r.inv.map_or(false, |i| i < snap.seq) && r.ret.map_or(true, |x| x > snap.seq));
+            let dropping = world.objs[o].drop_inv.map_or(false, |i| i < snap.seq) && world.objs[o].drop_ret.map_or(true, |x| x > snap.seq);
+            if let Some(td) = world.objs[o].table_dropped_at {
+                if td < snap.seq && !strong_by_design && !in_call && !dropping && !world.objs[o].panic_injected && snap.live_owners.get(o).copied().unwrap_or(0) > 0 {
+                    v(&mut out, "C11", "pipe_in_holds_strong_reference", &[pid], snap.seq, format!("every harness owner of object {} has been released and no call is in progress, yet {} strong reference(s) are still alive at quiescence while pipe_in on stream {} exists", o, snap.live_owners[o], s));
+                }
+            }
+        }
+    }
+
     // C16 / C11 at the quiescence reached after every gate has been opened: the input has been silent
     // since the drop and has not ended
     for (pi, snap) in facts.q2.iter().enumerate() {
